@@ -148,6 +148,15 @@ def generate_logger(rng, tier, index):
 
 
 def generate(rng, tier, index):
+    plan = _generate(rng, tier, index)
+    if plan.get("kind") != "logger":
+        # the schema (and every fresh copy of it) is obtained through
+        # ZConfig.loadSchema(url) instead of from its text
+        plan["schema_by_url"] = rng.random() < 0.35
+    return plan
+
+
+def _generate(rng, tier, index):
     if rng.random() < 0.12:
         return generate_logger(rng, tier, index)
     sc = scenarios.config_scenario(rng, {"imports": 0.6, "callbacks": True,
@@ -358,9 +367,21 @@ def _msg(o):
 
 
 def _fresh_schema(w, plan):
+    """A second, independently loaded copy of the schema: from the text, or
+    (schema_by_url) by asking ZConfig.loadSchema for the schema's URL again."""
     w.begin_op("fresh-schema")
-    so = ops.schema_outcome(lambda: ops.load_schema_text(
-        plan["schema_xml"], scenarios.SCHEMA_URL))
+    if plan.get("schema_by_url"):
+        saved = w.store
+        w.store = dict(saved)
+        w.store[scenarios.SCHEMA_URL] = plan["schema_xml"]
+        try:
+            so = ops.schema_outcome(
+                lambda: ZConfig.loadSchema(scenarios.SCHEMA_URL))
+        finally:
+            w.store = saved
+    else:
+        so = ops.schema_outcome(lambda: ops.load_schema_text(
+            plan["schema_xml"], scenarios.SCHEMA_URL))
     w.end_op("ok" if so["ok"] else so["cls"])
     return so
 
@@ -474,10 +495,13 @@ def execute(plan):
     with SimWorld(packages=plan["packages"]) as w:
         w.store = dict(plan["pkgfiles"])
         hist_loader = ZConfig.loader.SchemaLoader()
-        w.begin_op("hist-schema")
-        so = ops.schema_outcome(lambda: ops.load_schema_text(
-            plan["schema_xml"], scenarios.SCHEMA_URL, hist_loader))
-        w.end_op("ok" if so["ok"] else so["cls"])
+        if plan.get("schema_by_url"):
+            so = _fresh_schema(w, plan)
+        else:
+            w.begin_op("hist-schema")
+            so = ops.schema_outcome(lambda: ops.load_schema_text(
+                plan["schema_xml"], scenarios.SCHEMA_URL, hist_loader))
+            w.end_op("ok" if so["ok"] else so["cls"])
         if not so["ok"]:
             out["waste"] += 1
             return out
@@ -526,6 +550,16 @@ def execute(plan):
                 faults = _resolve_fault(op.get("fault"), counts[op["text"]])
                 oh, cfg, ch = _load(w, s_hist, plan, op, faults, "hist")
                 fs = _fresh_schema(w, plan)
+                if fs["ok"] and (fs["schema"] is s_hist or canon.digest_diff(
+                        digest0, fs["digest"])):
+                    violation("fresh-copy-differs", "schema",
+                              "a second, independently loaded copy of the "
+                              "schema %s" % (
+                                  "is the very object that served the "
+                                  "history" if fs["schema"] is s_hist else
+                                  "does not have the original description: "
+                                  "%r" % (canon.digest_diff(
+                                      digest0, fs["digest"])[:4],)), step)
                 of, _c2, cf = _load(w, fs["schema"], plan, op, faults,
                                     "fresh")
                 out["evaluations"] += 2
